@@ -98,16 +98,8 @@ func specStrings(s *specs.Spec) []string {
 var knownIDs09 = []string{"", "C09/json-c1-controls", "C09/json-nel", "C09/yaml-leading-blank-multiline"}
 
 func knownClass09(enc int, s *specs.Spec) int {
-	strs := specStrings(s)
-	if enc == 0 {
-		// repaired defect D20: the library escapes what the reader refuses; no string is set aside for .json files
-		return 0
-	}
-	for _, x := range strs {
-		if leadingBlankMultiline(x) {
-			return 3
-		}
-	}
+	// no string is set aside any more: repaired defects D20 (.json: characters the reader refuses are escaped) and D29 (.yaml: a
+	// document the YAML encoder cannot write readably is written in JSON syntax)
 	return 0
 }
 
